@@ -420,7 +420,11 @@ def write_evidence(prop, tier, seed, level, coverage, wall, violations=0, assump
 class Verdict:
     """Collects violations for one property; prints VIOLATION / KNOWN-FINDING lines."""
 
+    ALL = []               # every Verdict of this process: an INCONCLUSIVE later phase must not hide a violation already on record
+
     def __init__(self, prop):
+        Verdict.ALL.append(self)
+        self.finished = False
         self.prop = prop
         self.violations = []   # (signature, description, replay_obj)
         self.known_hits = []
@@ -434,6 +438,7 @@ class Verdict:
         self.violations.append((signature, description, replay_obj))
 
     def finish(self):
+        self.finished = True
         for k, d in self.known_hits[:50]:
             print("KNOWN-FINDING: property=%s %s" % (self.prop, k.get("what", k.get("signature"))))
         shown = set()
